@@ -59,7 +59,8 @@ def respell(items, f):
 
 def vic_escape_ok(s):
     """expressible as a vic literal with the same raw text: no quote, backslashes only as escaped pairs"""
-    return '"' not in s and "\\" not in s.replace("\\\\", "")
+    rest = s.replace("\\\\", "").replace('\\"', "")          # escaped backslashes and escaped quotes are fine in both spellings
+    return '"' not in rest and "\\" not in rest
 
 
 def vic_of_tree(cmds, indent=""):
